@@ -1,17 +1,17 @@
 """Which units / harnesses decide which property."""
 
 # unit -> Verus rlimit ("roughly seconds"); every function is far below it on the unchanged tree
-UNIT_RLIMIT = {'conn': 60, 'lemmas': 60, 'oneshot': 150, 'request': 60, 'client': 60, 'response': 120, 'router': 60}
+UNIT_RLIMIT = {'conn': 60, 'lemmas': 60, 'oneshot': 150, 'request': 60, 'client': 60, 'response': 120, 'router': 60, 'headers': 60}
 
 PROPS = {
     'C01': dict(units=['conn', 'lemmas', 'client'], kani=['find_first_match_1', 'find_first_match_2'],
                 title='Delivered requests depend only on the byte stream, not on how reads split it'),
-    'C02': dict(units=['conn', 'request'], kani=['method_try_from_exact', 'version_try_from_exact', 'method_roundtrip', 'version_roundtrip', 'find_first_match'],
+    'C02': dict(units=['conn', 'request', 'headers'], kani=['method_try_from_exact', 'version_try_from_exact', 'method_roundtrip', 'version_roundtrip', 'find_first_match'],
                 title='Accepted requests are exactly those of the documented grammar'),
     'C03': dict(units=['conn', 'request', 'client', 'response'],
                 kani=['method_try_from_exact', 'version_try_from_exact', 'find_first_match', 'uri_abs_path_all'],
                 title='No input makes any parsing entry point panic, hang or block'),
-    'C04': dict(units=['conn', 'lemmas', 'client'], kani=[], title='Payload and line-length limits are enforced exactly and before buffering'),
+    'C04': dict(units=['conn', 'lemmas', 'client', 'headers'], kani=[], title='Payload and line-length limits are enforced exactly and before buffering'),
     'C05': dict(units=['response'], kani=['status_code_raw', 'mediatype_as_str', 'header_raw_names', 'status_line_bytes', 'write_body_bytes', 'deprecation_header_line', 'allow_header_line'],
                 title='Serialized responses are well-formed and self-delimiting'),
     'C06': dict(units=['conn'], kani=[], title='Queued responses reach the stream completely, once, in order'),
@@ -19,15 +19,17 @@ PROPS = {
     'C09': dict(units=['client'], kani=[], title='No client can wedge the server'),
     'C11': dict(units=['conn', 'lemmas', 'client'], kani=[], title='A rejected request is never delivered later'),
     'C12': dict(units=['conn', 'lemmas'], kani=[], title='Descriptors passed with a request are delivered once, in order'),
-    'C13': dict(units=['conn', 'lemmas', 'client', 'response'], kani=[], title='100 Continue is sent exactly when asked for'),
-    'C14': dict(units=['request', 'oneshot', 'conn', 'response'], kani=['find_first_match'],
+    'C13': dict(units=['conn', 'lemmas', 'client', 'response', 'headers'], kani=[], title='100 Continue is sent exactly when asked for'),
+    'C14': dict(units=['request', 'oneshot', 'conn', 'response', 'headers'], kani=['find_first_match'],
                 title='One-shot request parsing agrees with the incremental connection parser',
-                hypotheses=['hyp_block: Headers::try_from(block) succeeds with h iff folding Headers::parse_header_line (ignoring UnsupportedValue) over the CRLF-separated lines of the block succeeds with h -- C15\'s block-vs-lines clause, str/HashMap code, ASSUMED',
+                hypotheses=['hyp_block: Headers::try_from(block) succeeds with h iff folding Headers::parse_header_line (ignoring UnsupportedValue) over the CRLF-separated lines of the block succeeds with h -- C15\'s block-vs-lines clause, str/HashMap code, ASSUMED as an identity between functions; its relational form (Headers::try_from is the fold of parse_header_line over the CRLF-split lines from the default header set, stopping at the first empty line, ignoring UnsupportedValue) is PROVED on the real code in unit headers (clause Headers.try_from.block)',
                             'hyp_request_line: the request-line function used by the connection satisfies rl_outcome_ok / (Ok <=> rl_accepts) -- PROVED for RequestLine::try_from in unit request; that the connection calls a pure function is assumed',
                             'hyp_default: Headers::default() has Content-Length 0 -- PROVED on the real Default impl in unit response (clause Headers.default_values.zero)']),
+    'C15': dict(units=['headers'], kani=[],
+                title='Header rules: case-insensitive names, trimmed values, tolerant vs fatal faults'),
     'C17': dict(units=['router', 'response', 'request'], kani=['uri_abs_path_all'],
                 title='Router dispatches to exactly the handler registered for (method, prefix+path)'),
-    'C16': dict(units=[], kani=['method_try_from_exact', 'version_try_from_exact', 'method_roundtrip', 'version_roundtrip',
+    'C16': dict(units=['headers'], kani=['method_try_from_exact', 'version_try_from_exact', 'method_roundtrip', 'version_roundtrip',
                                'status_code_raw', 'mediatype_as_str', 'uri_abs_path_all'],
                 title='Token and URI functions are exact, case-sensitive and round-trip'),
 }
